@@ -58,6 +58,8 @@ var c15Places = []c15Place{
 	{"$.arr", nil, `{"arr":[2,1]}`, func() Expr { return Mem(V("$"), "arr") }},
 	{"o.k", []Stmt{Ex(Asg("=", V("o"), &ObjLit{Keys: []string{"k"}, Vals: []Expr{Arr_(N("5"))}}))}, "", func() Expr { return Mem(V("o"), "k") }},
 	{"m[0]", []Stmt{Ex(Asg("=", V("m"), Arr_(Arr_(), N("4"))))}, "", func() Expr { return Idx(V("m"), N("0")) }},
+	// the array literal is built anew for every element of the input: nothing of one element's array may reach the next
+	{"literal per element", []Stmt{Ex(Asg("=", V("a"), Arr_(N("3"), N("1"), N("2"))))}, `[1,2]`, func() Expr { return V("a") }},
 }
 
 func av() Expr { return V("a") }
@@ -158,6 +160,36 @@ func c15Check(c *fw.Ctx, s c15Spec) *fw.Violation {
 	return v
 }
 
+// c15SortPrograms: arrays of 13-24 elements whose elements share sort keys but remain distinguishable (1 and "1"; true,
+// false and null all have the empty string form): the sort must be stable whatever the length.
+func c15SortPrograms() []*progCase {
+	pool := []func() Expr{
+		func() Expr { return &BoolLit{B: true} }, func() Expr { return &BoolLit{B: false} }, func() Expr { return &NullLit{} },
+		func() Expr { return N("1") }, func() Expr { return S("1") }, func() Expr { return S("") }, func() Expr { return N("10") }, func() Expr { return S("10") }, func() Expr { return S("b") },
+	}
+	var out []*progCase
+	for _, n := range []int{5, 12, 13, 16, 24, 40} {
+		for shift := 0; shift < 7; shift++ {
+			items := make([]Expr, n)
+			for i := range items {
+				items[i] = pool[(i*5+shift*i/3+shift)%len(pool)]()
+			}
+			body := Blk(Ex(Asg("=", V("a"), Arr_(items...))), Ex(Asg("=", V("s"), CallE(Mem(V("a"), "sort")))), Pr(V("s")), Pr(V("a")),
+				&ForIn{V: "v", W: "i", Iter: V("s"), Body: Pr(V("i"), V("v"), &IsExpr{V("v"), "string"}, &IsExpr{V("v"), "number"}, &IsExpr{V("v"), "bool"})})
+			out = append(out, &progCase{P: &Program{Rules: []*Rule{{Kind: "BEGIN", Body: body}}}})
+		}
+	}
+	// all-number arrays with repeated values and negative zero
+	for _, n := range []int{13, 20} {
+		items := make([]Expr, n)
+		for i := range items {
+			items[i] = []Expr{N("3"), N("1"), Un("-", N("0")), N("0"), N("2"), N("1.5")}[(i*7)%6]
+		}
+		out = append(out, &progCase{P: &Program{Rules: []*Rule{{Kind: "BEGIN", Body: Blk(Ex(Asg("=", V("a"), Arr_(items...))), Pr(CallE(Mem(V("a"), "sort"))), Pr(V("a")))}}}})
+	}
+	return out
+}
+
 type c15Plan struct {
 	family string
 	place  int
@@ -198,7 +230,7 @@ func init() {
 	fw.Register(&fw.Prop{
 		ID: "C15",
 		Rule: "all sequences of exactly D operations (every shorter history is a prefix of one of them, and a run prints result, contents and length after each operation) over 21 operations on one array " +
-			"(push of a number / string / array / unset value, pop, popfirst, reads and writes at 0, -1 and length, length, contains of a number / string / unset value, sort, and a push / index store into the result of sort), with the array held by a variable, inside the input document ($.arr, also compared through -o), inside an object (o.k) and inside another array (m[0]); " +
+			"(push of a number / string / array / unset value, pop, popfirst, reads and writes at 0, -1 and length, length, contains of a number / string / unset value, sort, and a push / index store into the result of sort), with the array held by a variable, inside the input document ($.arr, also compared through -o), inside an object (o.k), inside another array (m[0]) and as a literal rebuilt for every element of the input; 44 fixed arrays of 5-40 elements with equal sort keys but distinguishable values (stability at every length);  " +
 			"deeper histories over the 11 length-changing and indexing operations; all sequences over 11 operations on an array with unset elements (observed through booleans and numbers only); and all sequences over 14 operations on two arrays including calls nested in each other's arguments and aliasing; histories are not merged (slice capacity is hidden state); oracle: ideal list in the reference interpreter; " +
 			"a state is a distinct model list reached; non-trivial = same",
 		Plan: func(t fw.Tier) int { return len(c15Units(t)) },
@@ -211,6 +243,12 @@ func init() {
 		},
 		Assumptions: []string{"reference interpreter mc/refsem (3.10 sharing, 3.16 methods)"},
 		Run: func(c *fw.Ctx, u int) {
+			if u == 0 {
+				for i, pc := range c15SortPrograms() {
+					pc, i := pc, i
+					c.Do(func() any { return c15Spec{Family: "sortlong", Place: i} }, func() *fw.Violation { v, _, _ := pc.check(c); return v })
+				}
+			}
 			un := c15Units(c.Tier)[u]
 			pl := c15Plans(c.Tier)[un[0]]
 			D := pl.depth
@@ -252,6 +290,10 @@ func init() {
 				return nil
 			}
 			s.Names = nil
+			if s.Family == "sortlong" {
+				v, _, _ := c15SortPrograms()[s.Place].check(c)
+				return v
+			}
 			return c15Check(c, s)
 		},
 	})
